@@ -176,7 +176,7 @@ def _triple_float(x):
         a = np.asarray(x, dtype=float)
     except Exception:
         return None
-    if a.shape != (3,) or not np.all(np.isfinite(a)) or np.abs(a).max() > 1e9:
+    if a.shape != (3,) or not np.all(np.isfinite(a)) or np.abs(a).max() > 1e16:
         return None
     return a.copy()
 
@@ -299,7 +299,7 @@ def _place_inputs(A):
             return None
         cont = np.zeros(shp)
     vals = df[["x", "y", "z", "shift_x", "shift_y", "shift_z", "phi", "theta", "psi", feat]].to_numpy(dtype=float)
-    if not np.all(np.isfinite(vals)) or np.abs(vals[:, :6]).max() > 1e6:
+    if not np.all(np.isfinite(vals)) or np.abs(vals[:, :6]).max() > 1e16:
         return None
     Rs = gens.rotations(df)
     Ms = [O.as_cube_rotation(R) for R in Rs]
@@ -453,10 +453,10 @@ def noise_volume(rng, shape):
 
 def gen_cube(rng, cls, big):
     if cls == "cube_odd":
-        N = int(rng.choice([5, 7, 9, 11, 13] + ([17, 21] if big else [])))
+        N = int(rng.choice([5, 7, 9, 11, 13, 15, 17] + ([21, 31, 33, 63, 65] if big else [31, 33])))      # incl. 2**k +- 1
         shape = (N, N, N)
     elif cls == "cube_even":
-        N = int(rng.choice([4, 6, 8, 10, 12] + ([16, 20] if big else [])))
+        N = int(rng.choice([4, 6, 8, 10, 12, 16] + ([20, 32, 64] if big else [32])))                    # incl. 2**k
         shape = (N, N, N)
     else:
         while True:
@@ -469,9 +469,12 @@ def gen_cube(rng, cls, big):
         M = CUBES[int(k)]
         style = str(rng.choice(["angles", "angles", "angles_rad", "rotation_T"]))
         ang, akind = cube_angles(rng, M)
+        if style == "angles_rad" and not any(a < 0 or a >= 360.0 for a in ang):
+            # radians are always given with a negative angle and one beyond 2 pi (same orientation)
+            ang, akind = [ang[0] - 360.0, ang[1], ang[2] + 720.0], akind + "+wide_rad"
         calls.append({"cube": int(k), "style": style, "angles": ang, "alias": akind, "order": int(rng.choice([3, 3, 3, 1])),
                       "as": str(rng.choice(["list", "array", "tuple"]))})
-    return {"vol": vol, "calls": calls,
+    return {"vol": vol, "calls": calls, "mutate": str(rng.choice(["none", "negate", "flip_and_poke", "refill"])),
             "summary": {"box": list(shape), "dtype": str(vol.dtype), "calls": [{k: c[k] for k in ("cube", "style", "alias", "order")} for c in calls],
                         "angles0": calls[0]["angles"], "v0": float(vol.reshape(-1)[0])}}
 
@@ -486,8 +489,8 @@ def gen_blob(rng, cls, big):
     B = O.random_blob(rng, shape)
     kind = {"blob_random": "random", "blob_gimbal": str(rng.choice(["gimbal", "near_gimbal"])), "blob_wide": "wide"}[cls]
     ang = [float(v) for v in so3.random_euler(rng, 1, kind)[0]]
-    return {"shape": shape, "blob": B, "angles": ang, "style": str(rng.choice(["angles", "rotation_T"])), "inv_style": str(rng.choice(["angles", "rotation_T"])),
-            "summary": {"box": list(shape), "angles": np.round(ang, 6).tolist(), "kind": kind, "blob": B.summary()}}
+    return {"shape": shape, "blob": B, "angles": ang, "style": str(rng.choice(["angles", "rotation_T", "angles_rad"])), "inv_style": str(rng.choice(["angles", "rotation_T", "angles_rad"])),
+            "summary": {"box": list(shape), "angles": np.round(ang, 6).tolist(), "kind": kind, "blob": B.summary()}}      # styles are drawn after: not part of the digest
 
 
 def gen_window(rng, cls, V):
@@ -495,9 +498,12 @@ def gen_window(rng, cls, V):
         N = [int(2 * rng.integers(1, max(2, v // 2 + 1))) for v in V]          # even, <= V
     else:
         N = [int(2 * rng.integers(1, 9)) for _ in V]
-        if rng.random() < 0.2:
+        r = rng.random()
+        if r < 0.2:
             k = int(rng.integers(0, 3))
             N[k] = V[k] + (2 if V[k] % 2 == 0 else 1) + int(2 * rng.integers(0, 3))     # window larger than the volume
+        elif r < 0.3:
+            N[int(rng.integers(0, 3))] = int(rng.choice([32, 64]))                        # 2**k window edge
     start = []
     for k in range(3):
         lo_in, hi_in = 0, V[k] - N[k]
@@ -517,14 +523,30 @@ def gen_window(rng, cls, V):
                 start[k] = -N[k] if touching else -N[k] - int(rng.integers(1, 30))
             else:
                 start[k] = V[k] if touching else V[k] + int(rng.integers(1, 30))
-    frac_kind = str(rng.choice(["integer", "half", "quarter", "generic", "near_one"]))
+    far = [False] * 3
+    if cls == "extract_outside" and rng.random() < 0.3:
+        # representability boundaries: a window centre just above 1e5, at 2**24, 2**31, near 2**53 (either sign)
+        k = int(rng.integers(0, 3))
+        start[k] = int(rng.choice([100001, 2 ** 24, 2 ** 24 + 1, 2 ** 31, -2 ** 31 - 1, 2 ** 53 - 128, -(2 ** 53 - 128), -100002]))
+        far[k] = True
+    frac_kind = str(rng.choice(["integer", "half", "quarter", "generic", "near_one", "ulp_below", "tiny_below", "tiny_above"]))
     frac = {"integer": [0.0] * 3, "half": [0.5] * 3, "quarter": [0.25, 0.75, 0.25]}.get(frac_kind)
     if frac is None:
-        frac = [float(v) for v in (rng.uniform(1e-3, 1 - 1e-3, 3) if frac_kind == "generic" else 1.0 - rng.uniform(1e-7, 1e-4, 3))]
-    coord = [start[k] + N[k] / 2.0 + frac[k] for k in range(3)]
+        frac = [float(v) for v in {"generic": rng.uniform(1e-3, 1 - 1e-3, 3), "near_one": 1.0 - rng.uniform(1e-7, 1e-4, 3),
+                                   "ulp_below": np.zeros(3), "tiny_below": 1.0 - rng.uniform(1e-9, 5e-7, 3), "tiny_above": rng.uniform(1e-9, 5e-7, 3)}[frac_kind]]
+    coord = []
+    for k in range(3):
+        if far[k]:
+            coord.append(start[k] + N[k] / 2.0 + (0.0 if abs(start[k]) > 2 ** 40 else float(rng.choice([0.0, 0.5]))))
+        elif frac_kind == "ulp_below":
+            # one ulp below the next voxel; only where c - N/2 is exact in floating point (window start >= 0), so that the
+            # window is the same however an implementation orders the arithmetic; elsewhere 1e-7..1e-4 below
+            coord.append(float(np.nextafter(start[k] + N[k] / 2.0 + 1.0, -np.inf)) if start[k] >= 0 else start[k] + N[k] / 2.0 + 1.0 - float(rng.uniform(1e-7, 1e-4)))
+        else:
+            coord.append(start[k] + N[k] / 2.0 + frac[k])
     assert [math.floor(coord[k] - N[k] / 2.0) for k in range(3)] == start
     return {"N": N, "coord": coord, "start": start, "frac": frac_kind,
-            "coord_as": str(rng.choice(["array", "list", "tuple", "int_array" if frac_kind == "integer" else "array"])),
+            "coord_as": str(rng.choice(["array", "list", "tuple", "int_array" if (frac_kind == "integer" and not any(far)) else "array"])),
             "shape_as": str(rng.choice(["tuple", "list", "array"])), "enforce_too": bool(rng.random() < 0.1), "crop_too": bool(rng.random() < 0.2)}
 
 
@@ -539,16 +561,19 @@ def gen_extract(rng, cls, big):
     seq = [{"N": first["N"], "vol": 0}]
     for _ in range(int(rng.integers(1, 3))):
         same_size = rng.random() < 0.5
-        seq.append({"N": list(first["N"]) if same_size else [int(2 * rng.integers(1, 9)) for _ in range(3)], "vol": int(rng.integers(0, 2))})
+        delta = None
+        if rng.random() < 0.6:                               # the caller moves the centre IN PLACE before the next call
+            delta = [float(v) for v in rng.choice([-3.0, -1.0, -0.5, 0.0, 0.5, 1.0, 2.0, 7.0], 3)]
+        seq.append({"N": list(first["N"]) if same_size else [int(2 * rng.integers(1, 9)) for _ in range(3)], "vol": int(rng.integers(0, 2)), "delta": delta})
     reuse = {"coord": first["coord"], "start": first["start"], "frac": first["frac"], "seq": seq}
     return {"vol": vol, "vol2": vol2, "wins": wins, "reuse": reuse,
             "summary": {"volume": V, "dtype": str(vol.dtype), "windows": [{"window": w["N"], "start": w["start"], "frac": w["frac"]} for w in wins],
                         "coord0": np.round(wins[0]["coord"], 6).tolist(), "v0": float(vol.reshape(-1)[0]),
-                        "reuse": {"coord": np.round(reuse["coord"], 6).tolist(), "calls": [{"window": q["N"], "volume": q["vol"]} for q in seq], "volume2": V2}}}
+                        "reuse": {"coord": np.round(reuse["coord"], 6).tolist(), "calls": [{"window": q["N"], "volume": q["vol"], "moved_by": q.get("delta")} for q in seq], "volume2": V2}}}
 
 
 def binary_template(rng, shape):
-    """asymmetric binary template, zero on the faces"""
+    """asymmetric binary template, zero on the faces; half of them with exactly 2**k - 1, 2**k or 2**k + 1 voxels set"""
     for _ in range(50):
         T = np.zeros(shape)
         inner = tuple(slice(1, n - 1) for n in shape)
@@ -556,6 +581,20 @@ def binary_template(rng, shape):
         c = O.centre(shape)
         T[c[0], c[1], c[2]] = 1.0
         T[c[0] + 1, c[1], c[2]] = 1.0
+        n_in = int(np.prod([n - 2 for n in shape]))
+        targets = [t for t in (15, 16, 17, 31, 32, 33, 63, 64, 65, 127, 128, 129, 255, 256, 257) if 4 <= t <= n_in // 2]
+        if targets and rng.random() < 0.5:
+            want = int(rng.choice(targets))
+            sub = T[inner]                                  # a view: edits go into T
+            free = np.argwhere(sub == 0)
+            setv = np.array([v for v in np.argwhere(sub == 1) if not (tuple(v + 1) in (tuple(c), (c[0] + 1, c[1], c[2])))])
+            have = int(sub.sum())
+            if have < want:
+                for v in free[rng.permutation(len(free))[:want - have]]:
+                    sub[tuple(v)] = 1.0
+            elif have > want and len(setv) >= have - want:
+                for v in setv[rng.permutation(len(setv))[:have - want]]:
+                    sub[tuple(v)] = 0.0
         if T.sum() >= 4 and all(not np.array_equal(O.permuted(T, M)[0], T) for M in CUBES[1:]):
             return T
     raise RuntimeError("no asymmetric template drawn")
@@ -597,14 +636,26 @@ def place_positions(rng, n, V, shapes, mode):
                 k = int(rng.integers(0, 3))
                 if kind == "partial":
                     s[k] = int(rng.integers(-N[k] + 1, 0)) if rng.random() < 0.5 else int(rng.integers(max(V[k] - N[k] + 1, 1), V[k]))
+                elif rng.random() < 0.4:
+                    s[k] = int(rng.choice([100001, -100002, 2 ** 24, 2 ** 31, -2 ** 31 - 1, 2 ** 53 - 128]))      # far outside, at representability boundaries
                 else:
                     s[k] = int(-N[k] - rng.integers(0, 6)) if rng.random() < 0.5 else int(V[k] + rng.integers(0, 6))
             if base is None:
                 base = s
-        fk = str(rng.choice(["integer", "half", "eighths", "generic"]))
+        fk = str(rng.choice(["integer", "half", "eighths", "generic", "ulp_below", "tiny_below", "tiny_above"]))
         for k in range(3):
             frac = {"integer": 0.0, "half": 0.5, "eighths": float(rng.integers(0, 8)) / 8.0}.get(fk)
-            if frac is None:
+            if abs(s[k]) > 2 ** 20:
+                frac = 0.0 if abs(s[k]) > 2 ** 40 else float(rng.choice([0.0, 0.5]))
+            elif fk == "ulp_below":
+                # complete position one ulp below the next voxel (only where p - 1 - N/2 is exact: window start >= 0)
+                P[i, k] = float(np.nextafter(s[k] + N[k] / 2.0 + 2.0, -np.inf)) if s[k] >= 0 else s[k] + N[k] / 2.0 + 2.0 - float(rng.uniform(1e-7, 1e-4))
+                continue
+            elif fk == "tiny_below":
+                frac = 1.0 - float(rng.uniform(1e-9, 5e-7))
+            elif fk == "tiny_above":
+                frac = float(rng.uniform(1e-9, 5e-7))
+            elif frac is None:
                 frac = float(rng.uniform(1e-3, 1 - 1e-3))
             P[i, k] = s[k] + N[k] / 2.0 + frac + 1.0
         kinds.append(kind)
@@ -616,27 +667,40 @@ def colour_values(rng, n, feature):
         v = rng.permutation(np.arange(1, 200))[:n] / 8.0
     else:
         v = rng.permutation(np.arange(1, 60))[:n].astype(float)
+    v = v.astype(float)
+    if rng.random() < 0.3:
+        # adjacent integers just above 1e5 (np.isclose would merge them), 2**24 (+1), 2**31, 2**53, and tiny / huge magnitudes
+        pool = np.array([100001.0, 100002.0, 100003.0, 2.0 ** 24, 2.0 ** 24 + 1, 2.0 ** 24 + 2, 2.0 ** 31, 2.0 ** 31 + 1, 2.0 ** 53, 2.0 ** 53 - 1,
+                         1e-30, 3e-06, 1e+16, 0.5])
+        k = min(n, int(rng.integers(2, 7)))
+        v[rng.choice(n, k, replace=False)] = rng.choice(pool, k, replace=False)
     r = rng.random()
     if r < 0.1 and n > 1:
         v[int(rng.integers(0, n))] = v[int(rng.integers(0, n))]      # a repeated colour
     elif r < 0.18:
         v[int(rng.integers(0, n))] = 0.0                               # colour zero
-    return v.astype(float)
+    return v
 
 
-def gen_place(rng, cls, big):
+def gen_place(rng, cls, big, force=None):
+    force = force or {}
     smooth = cls == "place_random" or (cls == "place_single" and rng.random() < 0.5)
     n = {"place_single": 1}.get(cls)
     if n is None:
         n = int(rng.integers(2, 21)) if cls != "place_random" else int(rng.integers(1, 11))
     if cls == "place_overlap":
         n = int(rng.integers(3, 21))
+    if cls in ("place_cube", "place_overlap", "place_filtered") and rng.random() < 0.5:
+        n = int(rng.choice([20, 20, 19, 17, 16, 15, 9, 8, 7]))       # the largest list of the quantifier and 2**k - 1, 2**k, 2**k + 1
     V = [int(v) for v in rng.integers(24, 45 if not big else 65, 3)]
     separated = smooth and rng.random() < 0.6
     if separated:
         V = [int(v) for v in rng.integers(56, 81, 3)]
         n = min(n, 8)                                          # 2 x 2 x 2 cells at least
+    if "n" in force:
+        n = force["n"]
     per_particle = bool(rng.random() < 0.35) and n > 1
+    per_particle = force.get("per_particle", per_particle)
     ntempl = n if per_particle else 1
     templ, blobs, tshapes = [], [], []
     for _ in range(ntempl):
@@ -662,6 +726,10 @@ def gen_place(rng, cls, big):
                 s0 = cells[pick[i]][k] * 28 + int(rng.integers(0, 28 - shapes[i][k] + 1))
                 P[i, k] = s0 + shapes[i][k] / 2.0 + float(rng.choice([0.0, 0.5, float(rng.uniform(1e-3, 1 - 1e-3))])) + 1.0
         kinds = ["inside"] * n
+    dup = None
+    if cls == "place_overlap" and rng.random() < 0.6:
+        dup = int(rng.integers(1, n))                          # two particles at EXACTLY the same position (different colour / pose)
+        P[dup] = P[dup - 1]
     df = gens.motl_table(rng, n, tomos=1, ori="mixed")
     if smooth:
         ang = so3.random_euler(rng, n, "mixed")
@@ -675,17 +743,35 @@ def gen_place(rng, cls, big):
         ang = np.array(ang)
     df["phi"], df["theta"], df["psi"] = ang[:, 0], ang[:, 1], ang[:, 2]
     xs, shs = zip(*[split_position(rng, P[i]) for i in range(n)])
-    df[["x", "y", "z"]] = np.array(xs)
-    df[["shift_x", "shift_y", "shift_z"]] = np.array(shs)
+    xs, shs = np.array(xs), np.array(shs)
+    if dup is not None:
+        xs[dup], shs[dup] = xs[dup - 1], shs[dup - 1]
+    df[["x", "y", "z"]] = xs
+    df[["shift_x", "shift_y", "shift_z"]] = shs
     feature = str(rng.choice(["default", "object_id", "class", "geom1", "score", "subtomo_id", "geom4"]))
+    feature = force.get("feature", feature)
     fcol = "object_id" if feature == "default" else feature
     df[fcol] = colour_values(rng, n, fcol)
     container = str(rng.choice(["shape_tuple", "shape_list", "volume_zeros", "volume_bg64", "volume_bg32"]))
+    container = force.get("container", container)
     bg = None
     if container.startswith("volume"):
         bg = np.zeros(V, dtype=np.float32 if container.endswith("32") else np.float64)
         if "bg" in container:
             bg[...] = rng.integers(-3, 0, size=V)          # background distinct from every colour (colours >= 0)
+    # colour 0 is a colour like any other: planted on LATER particles that overlap earlier stamps and on pre-filled containers
+    zero_planted = 0
+    if (cls == "place_overlap" or (bg is not None and "bg" in container)) and rng.random() < 0.7:
+        cand = np.arange(1, n) if (n > 1 and cls == "place_overlap") else np.arange(0, n)
+        kz = min(len(cand), int(rng.integers(1, 4)))
+        idx0 = rng.choice(cand, kz, replace=False)
+        df.loc[df.index[idx0], fcol] = 0.0
+        zero_planted = kz
+    twin = None
+    if dup is not None and rng.random() < 0.4:
+        twin = dup                                               # an exact duplicate row (pose and colour too)
+        df.iloc[dup] = df.iloc[dup - 1]
+    history = bool((not smooth) and rng.random() < 0.5)          # second call after in-place edits of the caller's table
     variant = None
     if cls == "place_filtered":
         variant = str(rng.choice(["remove_feature", "remove_feature", "permuted_index", "offset_index"]))
@@ -716,8 +802,8 @@ def gen_place(rng, cls, big):
                 df_full.index = np.arange(n) + int(rng.integers(1, 5))
         df = df_full
     return {"V": V, "templ": templ, "blobs": blobs, "per_particle": per_particle, "df": df, "n": n, "feature": feature, "container": container, "bg": bg,
-            "variant": variant, "smooth": smooth, "kinds": kinds,
-            "summary": {"n": n, "volume": V, "templates": [list(s) for s in tshapes[:3]], "per_particle": per_particle, "feature": feature,
+            "variant": variant, "smooth": smooth, "kinds": kinds, "history": history, "fcol": fcol,
+            "summary": {"n": n, "zero_coloured": zero_planted, "same_position_pair": dup, "duplicate_row": twin, "history": history, "volume": V, "templates": [list(s) for s in tshapes[:3]], "per_particle": per_particle, "feature": feature,
                         "container": container, "variant": variant, "position_kinds": sorted(set(kinds)), "angle_kinds": sorted(set(akinds)),
                         "P0": np.round(P[0], 4).tolist(), "angles0": np.round(ang[0], 4).tolist()}}
 
@@ -832,6 +918,17 @@ def run_cube(ctx, case):
     for c in case["calls"]:
         M = np.asarray(CUBES[c["cube"]], dtype=float)
         real_rotate(ctx, "rotate", vol, R=M, angles=c["angles"], style=c["style"], order=c["order"], seq=c["as"])     # judged by rotate_cube
+    if case["mutate"] != "none":
+        # history: the caller's map is modified IN PLACE and rotated again (every call is judged on the values the array holds then)
+        if case["mutate"] == "negate":
+            np.negative(vol, out=vol)
+        elif case["mutate"] == "flip_and_poke":
+            vol[...] = vol[::-1, :, ::-1].copy()
+            vol[tuple(O.centre(vol.shape))] += 7
+        else:
+            vol[...] = np.arange(vol.size).reshape(vol.shape) % 97
+        for c in case["calls"][:2]:
+            real_rotate(ctx, "rotate", vol, R=np.asarray(CUBES[c["cube"]], dtype=float), angles=c["angles"], style=c["style"], order=c["order"], seq=c["as"])
     if case["i"] % 5 == 0:
         from scipy.spatial.transform import Rotation
         ctx.cmap.rotate(vol, rotation=Rotation.from_matrix(np.asarray(CUBES[case["calls"][0]["cube"]], dtype=float)))   # inverse convention: counted, not judged
@@ -906,6 +1003,9 @@ def run_extract_reuse(ctx, case):
     vols = [case["vol"], case["vol2"]]
     for k, q in enumerate(ru["seq"]):
         vol = vols[q["vol"]]
+        if q.get("delta") is not None:
+            centre += np.array(q["delta"])                   # in-place change of the caller's array between two calls ...
+            original = original + np.array(q["delta"])       # ... the next call is judged against the values it holds now
         ok, res = ctx.call("extract_subvolume", cm.extract_subvolume, vol, centre, tuple(q["N"]))
         if not ok:
             return
@@ -967,6 +1067,17 @@ def run_place(ctx, case):
             for i in range(len(P0)):
                 T = case["templ"][i if case["per_particle"] else 0]
                 ctx.call("rotate", ctx.cmap.rotate, np.array(T, copy=True), rotation=rots[i], transpose_rotation=True)
+    if ok and case["history"]:
+        # three-step history on the caller's own table: edited IN PLACE between calls (colours reversed, everything moved by one voxel,
+        # then one orientation exchanged); every call is judged by place_cube on the values the table holds at that moment
+        fc = case["fcol"]
+        m.df[fc] = m.df[fc].to_numpy()[::-1].copy()
+        m.df["x"] = m.df["x"].to_numpy() + 1.0
+        call_place(ctx, m, obj, m, **place_args(case)[1])
+        a2, _ = cube_angles(ctx.rng(case["i"], 7), CUBES[(case["i"] * 7 + 5) % 24])
+        m.df.loc[m.df.index[0], ["phi", "theta", "psi"]] = a2
+        m.df["shift_z"] = m.df["shift_z"].to_numpy() - 0.5
+        call_place(ctx, m, obj, m, **place_args(case)[1])
     if not ok or not case["smooth"]:
         return
     df = m.df
@@ -996,6 +1107,7 @@ def run_place(ctx, case):
     # centroid of each stamp that is alone in its neighbourhood, fully inside the volume and uniquely coloured
     V = np.asarray(case["V"])
     starts = np.array([x["start"] for x in info])
+    cols = cols.astype(cont.dtype).astype(float)            # the colours as the container's dtype holds them (float32 merges 2**24 and 2**24 + 1)
     for i in range(n):
         N = np.asarray(shapes[i])
         if np.any(starts[i] < 0) or np.any(starts[i] + N > V) or (cols == cols[i]).sum() != 1 or cols[i] <= 0:
@@ -1169,6 +1281,47 @@ def extra(ctx):
                     judge_sym_blob(ctx, B, shape, n, sym, vol)
                 cnt += 1
     ctx.extra["exhaustive_symmetrize_n_2_to_12_x_3_spellings_x_3_boxes"] = cnt
+    # every pair of in-quantifier options together (small inputs; judged by the call monitors)
+    grid = 0
+    for bi, shape in enumerate([(7, 7, 7), (8, 8, 8), (6, 9, 8)]):
+        for dt in ("f8", "f4", "i2"):
+            vol = (rng.integers(-50, 51, size=shape).astype(np.int16) if dt == "i2" else rng.normal(size=shape).astype(dt))
+            for style in ("angles", "angles_rad", "rotation_T"):
+                for order in (0, 1, 2, 3, 5):
+                    k = 1 + (grid * 7) % 23
+                    ang, _ = cube_angles(rng, CUBES[k])
+                    ctx.cur = {"index": "extra", "cls": "option_grid_rotate", "summary": {"box": list(shape), "dtype": dt, "style": style, "order": order, "cube": k}}
+                    ctx._case_violated = False
+                    real_rotate(ctx, "rotate", vol, R=np.asarray(CUBES[k], dtype=float), angles=ang, style=style, order=order, seq=["list", "array", "tuple"][grid % 3])
+                    grid += 1
+    ctx.extra["option_grid_rotate_calls (box parity x dtype x call form x spline order)"] = grid
+    grid = 0
+    for cls in ("extract_inside", "extract_partial", "extract_outside"):
+        for coord_as in ("array", "list", "tuple", "int_array"):
+            for shape_as in ("tuple", "list", "array"):
+                r2 = ctx.rng(10 ** 6 + 1 + grid)
+                case = gen_extract(r2, cls, False)
+                for w in case["wins"]:
+                    integral = all(float(c) == math.floor(c) for c in w["coord"]) and max(abs(c) for c in w["coord"]) < 2 ** 40
+                    w["coord_as"] = coord_as if (coord_as != "int_array" or integral) else "array"
+                    w["shape_as"] = shape_as
+                ctx.cur = {"index": "extra", "cls": "option_grid_extract", "summary": {"class": cls, "coord_as": coord_as, "shape_as": shape_as, "dtype": str(case["vol"].dtype)}}
+                ctx._case_violated = False
+                run_extract(ctx, case)
+                grid += 1
+    ctx.extra["option_grid_extract_cases (window class x coordinate type x shape type)"] = grid
+    grid = 0
+    for per_particle in (False, True):
+        for container in ("shape_tuple", "shape_list", "volume_zeros", "volume_bg64", "volume_bg32"):
+            for feature in ("default", "object_id", "class", "geom1", "score", "subtomo_id", "geom4"):
+                r2 = ctx.rng(10 ** 6 + 500 + grid)
+                case = gen_place(r2, "place_overlap" if grid % 2 else "place_cube", False, force={"n": 3 + grid % 4, "per_particle": per_particle, "container": container, "feature": feature})
+                case["i"], case["cls"] = 10 ** 6 + 500 + grid, "place_cube"
+                ctx.cur = {"index": "extra", "cls": "option_grid_place", "summary": {"per_particle": per_particle, "container": container, "feature": feature}}
+                ctx._case_violated = False
+                run_place(ctx, case)
+                grid += 1
+    ctx.extra["option_grid_place_cases (template list x container x colouring field)"] = grid
     # the file-writing tails of the anchors (the returned arrays are judged as usual)
     import os
     ctx.cur = {"index": "extra", "cls": "output_files", "summary": {}}
